@@ -254,6 +254,16 @@ def _field_of(text, p0='self'):
     return n
 
 
+def _fields_of(text, p0='self'):
+    """All object attributes a term refers to, as one name `a|b` (a value built from / stored into several attributes belongs to each)."""
+    ns = sorted(set(m.group(1).lstrip('_') for m in re.finditer(r'(?<![A-Za-z0-9_.])%s\.(_?[A-Za-z][A-Za-z0-9_]*)' % re.escape(p0), text or '')))
+    return '|'.join(ns) if ns else None
+
+
+def _same(a, b):
+    return bool(set(a.split('|')) & set(b.split('|')))
+
+
 def writer_fields(items, p0='self'):
     out = []
     for it in merge_consts(items):
@@ -261,19 +271,19 @@ def writer_fields(items, p0='self'):
         if k == 'C':
             out.append((None, str(len(it[1]))))
         elif k == 'INT':
-            out.append((_field_of(it[2], p0), it[1]))
+            out.append((_fields_of(it[2], p0), it[1]))
         elif k == 'BYTE':
-            out.append((_field_of(it[1], p0), '1'))
+            out.append((_fields_of(it[1], p0), '1'))
         elif k == 'SYM':
             if 'header.__bytearray__' in it[1] or it[1].startswith('super('):
                 out.append(('<header>', None))
             else:
-                out.append((_field_of(it[1], p0), None))
+                out.append((_fields_of(it[1], p0), None))
         elif k == 'SLICE':
             inner = it[1] if isinstance(it[1], str) else render_items(it[1])
-            out.append((_field_of(inner, p0), None))
+            out.append((_fields_of(inner, p0), None))
         elif k in ('EACH', 'REP', 'ALT', 'HASH'):
-            out.append((_field_of(render_item(it), p0) or '<loop>', None))
+            out.append((_fields_of(render_item(it), p0) or '<loop>', None))
     return out
 
 
@@ -283,7 +293,7 @@ def reader_fields(reads, p0='self'):
         if r.kind == 'delegate' and (r.via or '').startswith('super:'):
             out.append(('<header>', None))
         elif r.kind in ('fixed', 'fixed-skip', 'delegate', 'alias', 'fixed-delegate'):
-            name = _field_of(r.target, p0) if r.target and r.target.startswith(p0 + '.') else None
+            name = _fields_of(' '.join([r.target] + [a for a in r.also if a.startswith(p0 + '.')]), p0) if r.target and r.target.startswith(p0 + '.') else None
             if name is None and r.kind == 'delegate' and r.via and r.via.startswith(p0 + '.'):
                 name = _field_of(r.via, p0)
             out.append((name, r.width))
@@ -318,19 +328,20 @@ def check_field_order(rep, prog, classes):
             # locals used only as lengths (nlen, vlen, fnl, oidlen) have no name; duplicates of the same field collapse
             rf = _dedupe(rf)
             scen = '; '.join('%s=%s' % (f[0][:40], f[1]) for f in s.facts) or 'straight line'
-            match = any(_dedupe(w) == rf or _subseq(rf, _dedupe(w)) for w in wseqs)
+            match = any(_subseq(rf, _dedupe(w)) for w in wseqs)
             rep.check(match, 'C08.c', '%s parse/__bytearray__' % c.name, 'reader fields %s vs writer fields %s' % (rf, [_dedupe(w) for w in wseqs][:2]),
                       'the reader fills the fields in an order the writer does not emit them in: own output does not re-parse to the same values',
                       where=pf.where, expected=[_dedupe(w) for w in wseqs][:2], found=rf, scenario=scen)
             # a reader that consumes more than the named field (skip) is a normalisation and takes no part in the width comparison
             skipk = set(_field_of(r.target, rp0) for r in reads if r.kind == 'fixed-skip' and r.target)
-            for n, w in reader_fields(reads, rp0):
-                if n and codec._int(w) is not None and n not in skipk:
-                    rw.setdefault(n, set()).add(codec._int(w))
+            for ns, w in reader_fields(reads, rp0):
+                for n in (ns or '').split('|'):
+                    if n and n != '<header>' and codec._int(w) is not None and n not in skipk:
+                        rw.setdefault(n, set()).add(codec._int(w))
         for sw, items in wps:
-            for n, w in writer_fields(items, wp0):
-                if n and w is not None and codec._int(w) is not None:
-                    ww.setdefault(n, set()).add(codec._int(w))
+            for ns, w in writer_fields(items, wp0):
+                if ns and '|' not in ns and w is not None and codec._int(w) is not None:
+                    ww.setdefault(ns, set()).add(codec._int(w))
         # fixed widths: a field both sides give a constant width (on any of their paths) must have a width in common
         for n in sorted(rw):
             if n not in ww:
@@ -388,16 +399,16 @@ def check_field_order(rep, prog, classes):
 def _dedupe(seq):
     out = []
     for x in seq:
-        if not out or out[-1] != x:
+        if not out or not _same(out[-1], x):
             out.append(x)
     return out
 
 
 def _subseq(a, b):
-    """a is a subsequence of b or b of a (one side may name helper fields the other folds together)."""
+    """a is a subsequence of b or b of a (one side may name helper fields the other folds together); equal sequences included."""
     def sub(x, y):
         it = iter(y)
-        return all(any(e == f for f in it) for e in x)
+        return all(any(_same(e, f) for f in it) for e in x)
     return sub(a, b) or sub(b, a)
 
 
